@@ -8,11 +8,11 @@ props = [json.loads(l) for l in open(os.path.join(ROOT, 'properties.jsonl'))]
 # id -> (category, level text, level note, technique)
 CHECKS = {
  "C20": ("exploration",
-   "iohelp primitives executed in child processes (plain and -asan builds) against an encoding/binary reference: exhaustive over all 8/16-bit patterns, boundary+seeded random for wider types, every buffer length x count for the string readers, every short buffer length for fixed-width slice accessors, every (k fresh bytes, error kind) failure point of every stream reader with a non-interference oracle",
+   "iohelp primitives executed in child processes (plain and -asan builds) against an encoding/binary reference: exhaustive over all 8/16-bit patterns, boundary+seeded random for wider types, every buffer length x count for the string readers, every short buffer length for fixed-width slice accessors, long strings/byte arrays on streams followed by further values, every (k fresh bytes, error kind) failure point of every stream reader with a non-interference oracle",
    "held on the executions produced; trusted: encoding/binary as layout reference, Go -asan red zones after exact-size heap buffers; wider-than-16-bit types are sampled, not enumerated",
    "runtime monitoring: differential round-trip oracle + failure-injection non-interference monitor + AddressSanitizer build"),
  "C10": ("exploration",
-   "ReadFile executed in child processes behind a metering reader on ~3.7e5 (quick) / 1.2e6 (thorough) inputs: all token strings of length <=3 over a 60-spelling alphabet (incl. malformed spellings), all [flags] expression strings of <=4 tokens, every prefix / byte deletion / hostile insertion+replacement of corpus schemas, and every reader failure offset x chunking x error kind; oracle = no panic/runaway/CPU-budget, fault => error, success => reader drained and an appended definition is not lost",
+   "ReadFile executed in child processes behind a metering reader on ~3.7e5 (quick) / 1.2e6 (thorough) inputs: all token strings of length <=3 over a 60-spelling alphabet (incl. malformed spellings), all [flags] expression strings of <=4 tokens, every prefix / byte deletion / hostile insertion+replacement of corpus schemas, and every reader failure offset x chunking x error kind x {persistent, transient-then-EOF, transient-then-resume}; oracle = no panic/runaway/CPU-budget, fault => error, success => reader drained and an appended definition is not lost",
    "held on the inputs explored; CPU budget (20 s) stands in for 'terminates'; completeness is tested with one fixed appended definition; thorough adds length-4 token strings and all insertion offsets",
    "runtime monitoring: boundary monitor (metering reader, panic/CPU/runaway meters) + metamorphic completeness oracle + exhaustive reader-fault injection"),
  "C11": ("exploration",
@@ -20,11 +20,11 @@ CHECKS = {
    "held on the (schema, layout) pairs explored; the model follows the comment-attachment and layout conventions of DESIGN Appendix A; [flags] expressions restricted to precedence-independent ones",
    "runtime monitoring: model-based oracle (independent expected-File model) over generated ASTs x layouts"),
  "C16": ("exploration",
-   "for every accepted text of the C11 corpus (AST families x 9 layouts) the real Format output is parsed by the real ReadFile and compared with the original File on everything except comments/tags; the original File must itself equal the independent model, so the comparison cannot be vacuous",
+   "for every accepted text of the C11 corpus (AST families x 9 layouts) and of the comment-placement family (comments and stray separators inserted at token boundaries, ~2e4 accepted per quick run) the real Format output is parsed by the real ReadFile and compared with the original File on everything except comments/tags; the original File must itself equal the independent model, so the comparison cannot be vacuous",
    "held on the texts explored; inputs restricted to what ReadFile accepts; comment attachment deliberately not compared",
    "runtime monitoring: differential oracle through the real parser + model check"),
  "C17": ("exploration",
-   "for every accepted text of the C11 corpus whose first Format succeeds, Format(Format(x)) is compared with Format(x) byte for byte",
+   "for every accepted text of the C11 corpus and of the comment-placement family (block/line/long comments, stray separators at token boundaries) whose first Format succeeds, Format(Format(x)) is compared with Format(x) byte for byte",
    "held on the texts explored (AST families x 9 layouts, seeded random schemas)",
    "runtime monitoring: idempotence oracle over generated inputs"),
  "C13": ("exploration",
@@ -32,11 +32,11 @@ CHECKS = {
    "held on the (class, site, base) triples explored; out-of-range consts and self-containment through containers are deliberately not demanded (DESIGN section 8); one class x site is a recorded known finding",
    "runtime monitoring: mutation-injection workload with accept/reject oracle, CPU-budget monitor for the recursion analysis"),
  "C12": ("exploration",
-   "the full systematic matrix (30 element kinds x 11 type shapes x 6 contexts = 1920 single-cell schemas) under the default options plus pairwise-covering option rows, seeded random schemas, the construct family and a naming-hazard family go through the real ReadFile+Generate in child processes; every accepted output is compiled by the real Go compiler against /repo's bebop and iohelp packages (Record assertions included)",
+   "the full systematic matrix (30 element kinds x 11 type shapes x 7 contexts = 2310 single-cell schemas) under the default options plus pairwise-covering option rows, seeded random schemas, the construct family, separate-mode import sets (library + six application packages per option row) and a naming-hazard family go through the real ReadFile+Generate in child processes; every accepted output is compiled by the real Go compiler against /repo's bebop and iohelp packages (Record assertions included)",
    "held on the (schema, option set) pairs explored; single shapes x contexts are complete, combinations of shapes are sampled; 13 naming hazards are recorded known findings",
    "runtime monitoring: compile-as-oracle over a systematic schema matrix x generator options"),
  "C01": ("exploration",
-   "the codec corpus (every cell of the 30 x 11 x 6 matrix as a record with sentinel fields, plus seeded random schemas, generated with GenerateUnsafeMethods by the real generator and compiled) is driven in child processes: 24/200 boundary-driven values per record type x 3 encoders x 6 decoder entry points; the decoded value is compared with the encoded one by the harness's own normalising comparer",
+   "the codec corpus (every cell of the 30 x 11 x 7 matrix as a record with sentinel fields, plus the extremes family, separate-mode import sets and seeded random schemas, generated with GenerateUnsafeMethods by the real generator and compiled) is driven in child processes: 24/200 boundary-driven values (+ 6 with shifted variants) per record type x 3 encoders x 6 decoder entry points; the decoded value is compared with the encoded one by the harness's own normalising comparer",
    "held on the (type, value, encoder, decoder) tuples executed; a defect made symmetrically by encoder and decoder is out of reach here (see C03); values avoid the Unix epoch instant, NaN and -0 map keys",
    "runtime monitoring: round-trip oracle over a systematic type-shape matrix with a reflection bridge into generated code"),
  "C02": ("exploration",
@@ -52,11 +52,11 @@ CHECKS = {
    "held on the constants generated (984 quick / ~5000 thorough per run); flag expressions limited to precedence-independent ones; float literals with negative exponents are rejected by the tokenizer and hence outside 'accepted schemas'",
    "runtime monitoring: compile-and-run readback of generated constants against an independent literal evaluator"),
  "C06": ("fault_enumeration",
-   "for every record type of the codec corpus and several boundary-driven values with distinct encodings, EVERY cut point 0 <= k < len is executed against UnmarshalBebop (exactly sized buffer) and DecodeBebop (metering reader; EOF, io.ErrUnexpectedEOF and generic error endings) in driver children; per cut: error returned, no panic / process death / runaway / CPU budget, exact allocation within 64KiB + 1024*len",
-   "exhaustive over cut points per encoding, sampled over values and schemas (matrix complete for single shapes x contexts); 6.6e5 cuts per quick run",
+   "for every record type of the codec corpus and several boundary-driven values chosen by wire-feature coverage (plus 20 000-element containers for the allocation clause), EVERY cut point 0 <= k < len is executed against UnmarshalBebop (exactly sized buffer) and DecodeBebop (metering reader; EOF, io.ErrUnexpectedEOF and generic error endings) in driver children; per cut: error returned, no panic / process death / runaway / CPU budget, exact allocation within 64KiB + 1024*len",
+   "exhaustive over cut points per encoding, sampled over values and schemas (matrix complete for single shapes x contexts); 2.8e6 cuts per quick run",
    "runtime monitoring: exhaustive truncation fault enumeration with boundary monitors (panic, runaway, CPU, allocation meters)"),
  "C07": ("exploration",
-   "valid encodings of every record type of the codec corpus are corrupted structure-aware using the reference codec's per-byte role map (all length/count prefixes x hostile values, all tag bytes x other values, payload flips, splices, random tails) and joined by all-00/all-FF strings of every length <= 16 and seeded random strings; ~7e5 inputs per quick run go to UnmarshalBebop and DecodeBebop in driver children under RLIMIT_AS; oracle: normal return, no panic / death / runaway / CPU > 2 s, exact allocation <= 64KiB + 1024*len",
+   "valid encodings of every record type of the codec corpus are corrupted structure-aware using the reference codec's per-byte role map (all length/count prefixes x hostile values, all tag bytes x other values, payload flips, splices, random tails) and joined by all-00/all-FF strings of every length <= 16 and seeded random strings; ~2.6e6 inputs per quick run go to UnmarshalBebop and DecodeBebop in driver children under RLIMIT_AS; oracle: normal return, no panic / death / runaway / CPU > 2 s, exact allocation <= 64KiB + 1024*len",
    "held on the inputs explored; 'unbounded' is operationalised as more than 64KiB + 1024 bytes per input byte; one class (arrays of zero-wire-size elements) is a recorded known finding",
    "runtime monitoring: structure-aware corruption workload with boundary monitors (panic, OOM under RLIMIT_AS, runaway reader, CPU budget, exact allocation meter)"),
  "C05": ("exploration",
@@ -65,10 +65,10 @@ CHECKS = {
    "runtime monitoring: history oracle (sequence equality + byte conservation per record) over read-fragmentation schedules with a metering reader"),
  "C08": ("fault_enumeration",
    "per record type of the codec corpus and several values: EVERY Write call index of EncodeBebop fails (persistent generic error, io.ErrShortWrite with partial write, io.EOF, and a fail-once writer) and EVERY byte offset of DecodeBebop's input is followed by a failing reader (generic, timeout-like, io.ErrUnexpectedEOF); per fault point: non-nil error, no panic / death / runaway / CPU budget, bounded allocation; fault-free EncodeBebop == MarshalBebop",
-   "exhaustive over fault points per value (7e5 per quick run), sampled over values and schemas",
+   "exhaustive over fault points per value (2.5e6 per quick run), sampled over values and schemas",
    "runtime monitoring: exhaustive I/O fault injection through metering reader/writer wrappers"),
  "C04": ("exploration",
-   "6 schema-version pairs (added fields of several kinds, un-deprecated fields, both) x 13 nesting contexts of the evolved message; both versions are generated and compiled, v2-encoded values (added fields present/absent) are decoded by v1's byte and stream decoders (also chunked); decoded value must equal the harness's restriction of the v2 value to v1's fields, siblings intact, stream position exact",
+   "8 schema-version pairs (added fields of several kinds, un-deprecated fields, both, field-less v1) x 16 nesting contexts of the evolved message; both versions are generated and compiled, v2-encoded values (added fields present/absent) are decoded by v1's byte and stream decoders (also chunked); decoded value must equal the harness's restriction of the v2 value to v1's fields, siblings intact, stream position exact",
    "held on ~7500 (pair, context, value, decoder) tuples per quick run; evolution limited to the two operations the statement names; two contexts (struct containing the evolved message, nested again) are recorded known findings on the byte path",
    "runtime monitoring: cross-version differential oracle with an independent restriction model"),
  "C09": ("exploration",
@@ -76,7 +76,7 @@ CHECKS = {
    "held on ~6e4 (type, option set, value) triples per quick run; pairwise coverage of options in quick, full 2^5 in thorough",
    "runtime monitoring: differential oracle against the reference codec across generator configurations (+ AddressSanitizer build in thorough)"),
  "C14": ("exploration",
-   "three on-disk schema trees (single large file; imports in combined mode; imports over distinct go_packages in separate mode) are parsed once in a -race build; ReadFile, Validate, Format and Generate under 6 option sets run 5x sequentially and from 8 goroutines x 20 repetitions on the one shared File, in 3 fresh processes; outputs must be byte-identical within and across processes, the File deep-unchanged, and the race logs empty; overlapping call pairs are counted (9e4 per quick run)",
+   "on-disk schema trees (single large file; imports in combined mode; imports over distinct go_packages in separate mode; the extremes family; seeded random schemas; a cold tree of malformed texts) are parsed once in a -race build; ReadFile, Validate, Format and Generate under 6 option sets run 5x sequentially and from 8 goroutines x 20 repetitions on the one shared File, in 3 fresh processes (records kept per goroutine, one process per tree barrier-aligned); outputs must be byte-identical within and across processes, the File deep-unchanged, and the race logs empty; overlapping call pairs are counted (9e4 per quick run)",
    "held on the schedules the Go scheduler produced; the race detector is happens-before based, so it reports races between accesses that were executed regardless of timing, not races on paths the workload never ran",
    "runtime monitoring: Go race detector + repeatability/purity oracle over sequential, concurrent and cross-process repetitions"),
  "C18": ("exploration",
